@@ -15,15 +15,27 @@ CLAIMS = {
  "C06": ("static analysis: inclusion-based points-to (fresh-result B2, no-write B1), abstract interpretation over kinds x degenerate shapes (A), loop lint (D2)",
          "Decided statically: every Clone result is fresh at every nesting level and Clone never writes its argument (B1/B2, all inputs); no certain fault for nil/empty/singleton receivers of the core methods (A); element loops complete (D2). NOT decided: lattice laws, tightness of Bound, orientation sign.",
          "DESIGN.md §4 C06"),
+ "C07": ("static analysis: points-to effects (B1 no-write, B2 fresh-result) for the line-clipping entries, abstract interpretation over line shapes (A), segment-loop lint (D3)",
+         "Decided statically for all inputs: clip.LineString/MultiLineString/MultiPoint never write their argument and the returned pieces never alias it (B1/B2); no certain fault for nil/empty/1..4-vertex lines (A); the clipping loop visits every segment (D3). NOT decided: that the pieces are exactly the inside part, order, length, idempotence, open-bound semantics.",
+         "DESIGN.md §4 C07"),
+ "C08": ("static analysis: abstract interpretation over kinds x degenerate shapes with shape-decided postconditions (A, A-post/H4), loop lints (D1-D3)",
+         "Decided statically: no certain fault through any clip entry for any kind x degenerate shape; clip.Geometry yields a nil interface for nil/empty input and never a typed nil inside a non-nil interface (the form mvt Layer.Clip tests); member loops complete. NOT decided: enclosed-region preservation, area additivity.",
+         "DESIGN.md §4 C08"),
  "C10": ("static analysis: segment/member loop-completeness lint (D2, D3), abstract interpretation over kinds x shapes (A)",
          "Decided statically: every segment loop visits every consecutive pair, member loops every member (D2/D3); no certain fault on any kind/shape (A). NOT decided: every numeric identity.",
          "DESIGN.md §4 C10"),
+ "C11": ("static analysis: abstract interpretation of every public quadtree method over receiver states x boundary arguments with postconditions (A, A-post), reject-before-write dominance on points-to effects (B3)",
+         "Decided statically: no certain fault in Add/Remove/Find/Matching/KNearest*/InBound* on a never-populated, one-point, two-level or emptied tree with k in 0..3, short/long buffers, nil/non-nil filters; empty-tree queries return nil, Remove reports false, k=0 returns nothing (A-post); every write of Add is dominated by the passing edge of the bound test, so a rejected add changes nothing (B3). NOT decided: answers after histories, pruning, ordering, removal pull-up.",
+         "DESIGN.md §4 C11"),
  "C12": ("static analysis: abstract interpretation over kinds x shapes (A), loop lint (D2)",
          "Decided statically: no certain fault for any kind x degenerate shape through every simplify entry (A); wrappers visit every member (D2). NOT decided: error bound, idempotence, minimum counts, monotonicity.",
          "DESIGN.md §4 C12"),
  "C14": ("static analysis: run-once/member/segment loop lints (D1-D3), abstract interpretation over kinds x shapes (A)",
          "Decided statically: every member contributes and the line walk visits every segment (D1-D3); no certain fault for any kind/shape (A). NOT decided: DDA, scan fill, merge arithmetic.",
          "DESIGN.md §4 C14"),
+ "C15": ("static analysis: index-preserving-map dataflow over go/ssa (H3), loop lint (D2), abstract interpretation over kinds x shapes (A)",
+         "Decided statically: every projection helper stores f(x[i]) to x[i] for the same index value and from no other element, the bound helper projects exactly its two corners, every member/feature loop is complete, no certain fault for any kind/shape. NOT decided: every numeric inverse/rounding claim (mercator closed forms, half-pixel offsets, non-power-of-two extents).",
+         "DESIGN.md §4 C15"),
  "C16": ("static analysis: abstract interpretation over 2-d kinds x shapes x orientations (A), loop lint (D2)",
          "Decided statically: no certain fault for any kind x degenerate shape x both orientations (A); member loops complete (D2). NOT decided: region equality, hole attachment.",
          "DESIGN.md §4 C16"),
@@ -36,8 +48,8 @@ CLAIMS = {
  "C19": ("static analysis: sound may-write analysis (inclusion-based, field-sensitive points-to over go/ssa) of the six query methods",
          "Decided statically for all schedules, all trees, all arguments: every store reachable from Find/Matching/KNearest/KNearestMatching/InBound/InBoundMatching targets a per-call allocation or the caller's buffer; no package-level variable is written. With no shared write there is no race and the tree is unchanged. Assumes the user's FilterFunc and Pointer.Point() are pure and buf is per-goroutine.",
          "DESIGN.md §4 C19"),
- "C20": ("static analysis: kind typestate over go/ssa (K1-K3), sealed-interface compile-fail witness (H5), run-once loop lint (D1), abstract interpretation of every generic entry over kinds x shapes (A)",
-         "Decided statically: every type switch/assertion over orb.Geometry handles every kind and nil that can reach it; the interface is sealed; no collection loop is cut after its first member; no certain fault in any exported function taking orb.Geometry for nil, all nine kinds and degenerate members at every nesting level. NOT decided: numeric agreement with the typed functions.",
+ "C20": ("static analysis: kind typestate over go/ssa (K1-K3), sealed-interface compile-fail witness (H5), run-once loop lint (D1), abstract interpretation of every generic entry over kinds x shapes (A), points-to no-write analysis of the read-only generic entries (B1)",
+         "Decided statically: every type switch/assertion over orb.Geometry handles every kind and nil that can reach it; the interface is sealed; no collection loop is cut after its first member; no certain fault in any exported function taking orb.Geometry for nil, all nine kinds and degenerate members at every nesting level; the read-only generic entries (measures, predicates, encoders, covers, Clone, Equal) never write their argument (B1, all inputs). NOT decided: numeric agreement with the typed functions.",
          "DESIGN.md §4 C20"),
 }
 
